@@ -9,22 +9,40 @@ import Mathlib.Tactic.SplitIfs
 -/
 namespace RedisEmu
 
-/-- capture state of a connection (`CS_UNCAPTURED`, `CS_CAPTURED`, …) and its one-slot mailbox -/
+/-- capture state of a connection (`CS_UNCAPTURED`, `CS_CAPTURED`, …), its one-slot mailbox, and — since
+    the repair of D31 — the mark of a blocking command that is under way but has not captured yet, with
+    the request that arrived in that window -/
 structure Capture where
   captured : Bool := false
   mailbox : Option (Option String) := none     -- pending unblock request: some none = TIMEOUT, some (some e) = ERROR e
+  aboutToBlock : Bool := false                 -- `beginBlockingCommand` … `endBlockingCommand`
+  early : Option (Option String) := none       -- request that arrived between the two (`earlyUnblock`)
   deriving Repr, DecidableEq
 
-/-- `clientState.unblock`: a request is only posted to a captured client, at most one per capture -/
-def Capture.unblock (c : Capture) (err : Option String) : Capture × Bool :=
+/-- `beginBlockingCommand` -/
+def Capture.begin (c : Capture) : Capture := { c with aboutToBlock := true, early := none }
+
+/-- `clientState.unblock`: a request is posted to a captured client, at most one per capture; on a client
+    whose blocking command has not captured yet it is kept for the capture (`sticky` = the repaired
+    behaviour; without it the request is dropped: D31) -/
+def Capture.unblockQ (sticky : Bool) (c : Capture) (err : Option String) : Capture × Bool :=
   if c.captured then
     (if c.mailbox.isNone then { c with mailbox := some err } else c, true)
+  else if sticky && c.aboutToBlock then
+    (if c.early.isNone then { c with early := some err } else c, true)
   else (c, false)
 
-def Capture.capture (c : Capture) : Capture := { c with captured := true }
+def Capture.unblock (c : Capture) (err : Option String) : Capture × Bool := c.unblockQ true err
 
-/-- `releaseCapture` drains the mailbox -/
-def Capture.release (_c : Capture) : Capture := {}
+/-- `capture()` followed by the look at `takeEarlyUnblock`: a request that arrived early is found now -/
+def Capture.capture (c : Capture) : Capture :=
+  { c with captured := true, mailbox := (if c.mailbox.isNone then c.early else c.mailbox), early := none }
+
+/-- `releaseCapture` drains the mailbox; the command may capture again (it is still under way) -/
+def Capture.release (c : Capture) : Capture := { aboutToBlock := c.aboutToBlock }
+
+/-- `endBlockingCommand` -/
+def Capture.finish (_c : Capture) : Capture := {}
 
 inductive EndReason where
   | data            -- a wake-up token arrived
@@ -74,25 +92,51 @@ theorem keeps_waiting (now d : Int) (h : now < d) : readySources now (some d) fa
     on a client that is not captured it changes nothing and reports so (the repaired reply of D30) -/
 theorem unblock_captured (c : Capture) (err : Option String) (h : c.captured = true) (hm : c.mailbox = none) :
     (c.unblock err).1.mailbox = some err ∧ (c.unblock err).2 = true := by
-  simp [Capture.unblock, h, hm]
+  simp [Capture.unblock, Capture.unblockQ, h, hm]
 
-theorem unblock_uncaptured_inert (c : Capture) (err : Option String) (h : c.captured = false) :
-    (c.unblock err).1 = c ∧ (c.unblock err).2 = false := by
-  simp [Capture.unblock, h]
+theorem unblock_uncaptured_inert (c : Capture) (err : Option String) (h : c.captured = false)
+    (hb : c.aboutToBlock = false) : (c.unblock err).1 = c ∧ (c.unblock err).2 = false := by
+  simp [Capture.unblock, Capture.unblockQ, h, hb]
 
 /-- a second request during the same capture does not overwrite the first -/
 theorem unblock_once (c : Capture) (e1 e2 : Option String) (h : c.captured = true) (hm : c.mailbox = none) :
     ((c.unblock e1).1.unblock e2).1.mailbox = some e1 := by
-  simp [Capture.unblock, h, hm]
+  simp [Capture.unblock, Capture.unblockQ, h, hm]
 
-/-- D31 on the model: a request that arrives before the capture is lost — the client, once captured,
-    has an empty mailbox and keeps waiting -/
-theorem early_unblock_lost_witness :
-    (((({} : Capture).unblock none).1).capture).mailbox = none := by decide
+/-- **A request that arrives before the capture is not lost** (repaired, D31): between the start of a
+    blocking command and its capture — in whatever state the client was before, and however many times
+    the command captured and released already — the request is reported as delivered and is in the
+    (until then empty: `release_clears`) mailbox as soon as the command captures: the `select` ends at once with that reason. -/
+theorem early_unblock_reaches (c : Capture) (err : Option String) (hc : c.captured = false)
+    (hm : c.mailbox = none) :
+    ((c.begin.unblock err).1.capture).mailbox = some err ∧ (c.begin.unblock err).2 = true ∧
+    EndReason.unblocked err ∈ readySources 0 none false ((c.begin.unblock err).1.capture) := by
+  have h1 : ((c.begin.unblock err).1.capture).mailbox = some err := by
+    simp [Capture.begin, Capture.unblock, Capture.unblockQ, Capture.capture, hc, hm]
+  refine ⟨h1, by simp [Capture.begin, Capture.unblock, Capture.unblockQ, hc], ?_⟩
+  unfold readySources
+  rw [h1]
+  simp
+
+/-- … also between two captures of the same command (a wake-up that found nothing, then the retry) -/
+theorem unblock_between_captures_reaches (c : Capture) (err : Option String) :
+    (((c.begin.capture.release).unblock err).1.capture).mailbox = some err := by
+  simp [Capture.begin, Capture.capture, Capture.release, Capture.unblock, Capture.unblockQ]
+
+/-- a request kept for a command that then ends without capturing (data arrived first) does not leak
+    into the connection's next blocking command -/
+theorem early_unblock_does_not_leak (c : Capture) (err : Option String) :
+    ((c.begin.unblock err).1.finish.begin.capture).mailbox = none := by
+  simp [Capture.begin, Capture.finish, Capture.capture]
+
+/-- D31 on the model of the unrepaired code: the request is dropped — the client, once captured, has an
+    empty mailbox and keeps waiting -/
+theorem early_unblock_lost_before_repair :
+    (((({} : Capture).begin.unblockQ false none).1).capture).mailbox = none := by decide
 
 /-- after any end the capture is released with an empty mailbox: a stale request cannot end the
     connection's next block -/
-theorem release_clears (c : Capture) : c.release.mailbox = none ∧ c.release.captured = false := ⟨rfl, rfl⟩
+theorem release_clears (c : Capture) : c.release.mailbox = none ∧ c.release.captured = false ∧ c.release.early = none := ⟨rfl, rfl, rfl⟩
 
 /-- the unblock of one client does not touch another client's capture state (they are separate
     values): ending client A's block leaves client B blocked -/
